@@ -33,6 +33,11 @@ pub enum Prog {
     /// buffer; then len(); expect_closed_write on the global one.  `second` = writes of the
     /// second producer.
     Nested { second: Vec<usize> },
+    /// two-level stack whose lower (global) buffer IS switched to its destination: before the first
+    /// per-chromosome buffer is handed over (0), between the two (1, the global buffer then holds
+    /// staged bytes of its own when the second hand-over copies into it) or after both (2); then
+    /// await_real_file on the global buffer
+    NestedSwitch { second: Vec<usize>, switch_at: u8 },
 }
 
 #[derive(Clone, Debug, Serialize, Deserialize)]
@@ -157,6 +162,36 @@ fn one_execution(s: &Scen) {
             h1.join().unwrap();
             h2.join().unwrap();
         }
+        Prog::NestedSwitch { second, switch_at } => {
+            let chunks2 = payload(second, 100);
+            let all2: Vec<u8> = chunks2.iter().flatten().cloned().collect();
+            let (mut gbuf, gwriter) = TempFileBuffer::<Dest>::new(s.inmemory);
+            let (mut c1, w1) = TempFileBuffer::<TempFileBufferWriter<Dest>>::new(s.inmemory);
+            let (mut c2, w2) = TempFileBuffer::<TempFileBufferWriter<Dest>>::new(s.inmemory);
+            let h1 = spawn_producer(w1, chunks.clone(), s.flush_after, s.bufwriter);
+            let h2 = spawn_producer(w2, chunks2.clone(), None, s.bufwriter);
+            if *switch_at == 0 {
+                gbuf.switch(Dest::new(s.short_dest));
+            }
+            c1.switch(gwriter);
+            let gwriter = c1.await_real_file();
+            if *switch_at == 1 {
+                gbuf.switch(Dest::new(s.short_dest));
+            }
+            c2.switch(gwriter);
+            let gwriter = c2.await_real_file();
+            if *switch_at == 2 {
+                gbuf.switch(Dest::new(s.short_dest));
+            }
+            drop(gwriter);
+            let d = gbuf.await_real_file();
+            let mut want = all.clone();
+            want.extend_from_slice(&all2);
+            assert_eq!(d.data, want, "nested, lower buffer switched: destination bytes differ from the bytes written");
+            record_outcome(&d.calls);
+            h1.join().unwrap();
+            h2.join().unwrap();
+        }
         prog => {
             let (mut buf, writer) = TempFileBuffer::<Dest>::new(s.inmemory);
             let h = spawn_producer(writer, chunks.clone(), s.flush_after, s.bufwriter);
@@ -195,7 +230,7 @@ fn one_execution(s: &Scen) {
                     assert_eq!(len, all.len() as u64, "len() = {} but {} bytes were written", len, all.len());
                     record_outcome(&[len as usize]);
                 }
-                Prog::Nested { .. } => unreachable!(),
+                Prog::Nested { .. } | Prog::NestedSwitch { .. } => unreachable!(),
             }
             h.join().unwrap();
         }
@@ -305,6 +340,25 @@ impl Check for C12 {
                     (vec![1, 3, 1], vec![3, 1, 1], Some(2)),
                 ]
             };
+            // two-level stacks whose lower buffer is switched at each of the three possible moments
+            for switch_at in 0..3u8 {
+                let list: Vec<(Vec<usize>, Vec<usize>, Option<usize>)> = if quick {
+                    vec![(vec![1], vec![1], Some(2))]
+                } else {
+                    vec![(vec![1], vec![1], None), (vec![3, 1], vec![1], Some(3)), (vec![1], vec![], None), (vec![], vec![3], None)]
+                };
+                for (a, b, pb) in list {
+                    v.push(Scen {
+                        writes: a,
+                        flush_after: None,
+                        inmemory,
+                        prog: Prog::NestedSwitch { second: b, switch_at },
+                        bufwriter: false,
+                        preemption_bound: pb,
+                        short_dest: false,
+                    });
+                }
+            }
             for (a, b, pb) in nested {
                 v.push(Scen {
                     writes: a,
@@ -345,6 +399,9 @@ impl Check for C12 {
         out.count("distinct_delivery_patterns", n_out as u64);
         if n_out >= 2 {
             out.count("scenarios_with_2+_delivery_patterns", 1);
+        }
+        if matches!(s.prog, Prog::NestedSwitch { .. }) {
+            out.count("nested_scenarios_with_switched_lower_buffer", 1);
         }
         if matches!(s.prog, Prog::Nested { .. }) {
             out.count("nested_scenarios", 1);
